@@ -40,6 +40,12 @@ def run_one(patch, tier, seed, plans):
                 with open(rp) as f:
                     d = json.load(f)
                 c = d["case"]
+                if "session" in c:
+                    minim.append({"class": d["class"], "session": [{"selection": {k: inv["selection"].get(k) for k in ("units", "constants", "io")}, "faults": inv.get("faults"), "touched": inv["env"].get("touched")} for inv in c["session"]], "minimisation_evals": d["minimisation"]["evaluations"]})
+                    continue
+                if "header_alone" in c:
+                    minim.append({"class": d["class"], "header": c["header_alone"], "toolchain": c["toolchain"]})
+                    continue
                 minim.append({"class": d["class"], "selection": {k: c["selection"].get(k) for k in ("units", "constants", "io", "main_files")}, "faults": c.get("faults"), "git": c["env"].get("git"), "listdir": c["env"].get("listdir"), "toolchain": c["toolchain"], "minimisation_evals": d["minimisation"]["evaluations"]})
             except Exception as e:
                 minim.append({"error": repr(e)})
